@@ -30,7 +30,8 @@ def run(prop, tier, seed, replay=None):
         "mpz_probab_prime_p (n >= 2^16), Pollard rho and Lenstra ECM are oracles of the model: the theorems assume the stated contract "
         "(answers the primality question / returns a prime factor); every answer of the real code is certified per call by the verified checkers",
         "Lenstra's ECM arithmetic (Add_Curve, Mul_Curve, one_Mul_Curve) is an oracle too: executed and certified per call (divisor / failure value), never modelled; "
-        "Miller / Lehmann draw their base from GMP's global random state: certified one-sidedly (a prime must pass), the base is not observable; "
+        "Miller / Lehmann / test_Lehmann are modelled as functions of the base they draw (Model/PrimesMR.lean, theorems for every base in Props/C12MR.lean); "
+        "the draw itself (mpz_urandomm on GMP's global state) is not modelled: the harness seeds the library generator and recomputes the base with a GMP state of its own; "
         "Erathostene (sieve variant) and the text of write() are certified, not modelled (write's loop is compared with the model of set)",
         "Pollard() called directly on n with a prime factor below 100 can recurse without end (n = 4, 25: the rho iteration fails for every start): "
         "factor() never passes such n, the harness calls Pollard only on factor()'s domain",
@@ -46,7 +47,8 @@ def run(prop, tier, seed, replay=None):
         changed = False
     if changed:
         V.note("prime tables re-extracted from %s (they differ from the committed extraction)" % common.REPO)
-    L = flow.lean_stage(V, ["GivaroModel.Props.C12"], "GivaroModel/Props/C12.lean")
+    L = flow.lean_stage(V, ["GivaroModel.Props.C12", "GivaroModel.Props.C12MR"], "GivaroModel/Props/C12.lean",
+                        extra_theorem_files=["GivaroModel/Props/C12MR.lean"])
     bins = flow.build_harnesses("h_primes", configs=("S",))
     lines = None
     if replay:
